@@ -53,16 +53,28 @@ class Param:
         return "%s:%s:%s:%s%s" % (self.fam, self.t if self.fam == "native" else "", self.mode, self.intent, ":const" if self.const else "")
 
     def cxx_type(self):
+        if self.fam in ("fnptr", "cstrarr", "voidarr"):
+            return ""
         base = {"native": self.t, "bool": "bool", "char": "char", "cstr": "char", "string": "std::string", "enum": "Color",
                 "struct": "Pt", "class": self.t}[self.fam]
         c = "const " if self.const else ""
         return c + base + {"val": " ", "ptr": " *", "ref": " &", "pp": " **", "pr": " *&"}[self.mode]
 
     def cxx_decl(self):
+        if self.fam == "fnptr":
+            return "int (*%s)(int x, double y)" % self.name
+        if self.fam == "cstrarr":
+            return "char **" + self.name
+        if self.fam == "voidarr":
+            return "void **" + self.name
         return self.cxx_type() + self.name
 
     def yaml_decl(self):
         s = self.cxx_decl()
+        if self.fam == "fnptr":
+            return s
+        if self.fam in ("cstrarr", "voidarr"):
+            return s + " +intent(in)"
         if self.mode != "val" and not self.const and self.fam not in ("class",):
             s += " +intent(%s)" % self.intent
         return s
@@ -91,6 +103,8 @@ class Spec:
         self.name_template = None
         self.classes = []      # names
         self.funcs = []        # all Func in YAML order (grouped: free, per class, per namespace)
+        self.tclass = None     # (name, [instantiation types]) of a class template, its members in self.tfuncs
+        self.tfuncs = []
         self.ns = None
         self.use_enum = self.use_struct = False
 
@@ -131,6 +145,10 @@ class Spec:
             decls.append({"decl": "struct Pt { int x; double y; }"})
         for c in self.classes:
             decls.append({"decl": "class " + c, "declarations": [self.fdecl(f) for f in self.funcs if f.cls == c]})
+        if self.tclass:
+            decls.append({"decl": "template<typename T> class " + self.tclass[0],
+                          "cxx_template": [{"instantiation": "<%s>" % t} for t in self.tclass[1]],
+                          "declarations": [self.fdecl(f) for f in self.tfuncs]})
         for f in self.funcs:
             if f.cls is None and f.ns is None:
                 decls.append(self.fdecl(f))
@@ -217,6 +235,8 @@ class Spec:
         """distribution keys: templates `tmpl:<#params>x<#instantiations>[+explicit][+result]`, defaults
         `dflt:req<r>+<n>[:list<k>]`"""
         out = []
+        if self.tclass:
+            out.append("tclass:x%d" % len(self.tclass[1]))
         for f in self.funcs:
             if f.template:
                 out.append("tmpl:%dx%d%s%s" % (len(f.tparams), len(f.template), "+explicit" if f.tsuffix and any(f.tsuffix) else "",
@@ -224,6 +244,25 @@ class Spec:
             if f.defaults:
                 out.append("dflt:req%d+%d%s" % (len(f.params), len(f.defaults),
                                                 (":list%d" % len(f.dsuffix)) if f.dsuffix is not None else ""))
+        return out
+
+    def tclass_instances(self):
+        """[(documented class name, instantiation type, member functions bound to it)]: an instantiation `Box<int>` of a
+        class template is wrapped as class `Box_int` (C_name_scope `Box_int_`, capsule type `<C_prefix>Box_int`)"""
+        import copy
+        out = []
+        if not self.tclass:
+            return out
+        name, insts = self.tclass
+        for t in insts:
+            cname = "%s_%s" % (name, t.replace(" ", "_"))
+            fs = []
+            for f in self.tfuncs:
+                g = copy.copy(f)
+                g.cls = cname
+                g.orig = f
+                fs.append(g)
+            out.append((cname, t, fs))
         return out
 
     def overload_shapes(self):
@@ -251,10 +290,9 @@ def ret_cxx(r):
 
 # ------------------------------------------------------------------ generation
 def gen_param(r, spec, i, allow_class=True, allow_struct=True):
-    fams = ["native"] * 5 + ["bool", "bool", "char", "cstr", "string", "string", "string", "enum"]
+    fams = ["native"] * 5 + ["bool", "bool", "char", "cstr", "string", "string", "string", "enum", "enum", "fnptr", "cstrarr",
+            "voidarr"]
     if allow_struct:
-        # a struct used by a class method is not declared in the class's own header (wrap<Class>.h does not
-        # include the library header that defines the C struct): C05's subject, kept out of these libraries
         fams += ["struct", "struct"]
     if spec.classes and allow_class:
         fams += ["class", "class"]
@@ -278,6 +316,9 @@ def gen_param(r, spec, i, allow_class=True, allow_struct=True):
         return Param(fam, "bool", mode, intent, n)
     if fam == "char":
         return Param(fam, "char", "val", "in", n)
+    if fam in ("fnptr", "cstrarr", "voidarr"):
+        # callback / char ** / void **: handed to the library unchanged
+        return Param(fam, fam, "val", "in", n)
     if fam == "cstr":
         return Param(fam, "char", "ptr", "in", n, const=True)
     if fam == "string":
@@ -288,7 +329,11 @@ def gen_param(r, spec, i, allow_class=True, allow_struct=True):
         return Param(fam, "string", mode, intent, n, const=(intent == "in"))
     if fam == "enum":
         spec.use_enum = True
-        return Param(fam, "Color", "val", "in", n)
+        mode = r.choice(["val", "val", "ptr", "ref"])
+        if mode == "val":
+            return Param(fam, "Color", "val", "in", n)
+        intent = r.choice(["in", "out", "inout"])
+        return Param(fam, "Color", mode, intent, n, const=(intent == "in"))
     if fam == "struct":
         spec.use_struct = True
         k = r.choice(["val", "ptr", "cref", "cptr"])
@@ -439,9 +484,9 @@ def gen_spec(r, name, rich=True, nfree=None):
         funcs.append(Func("dtor", [], ("void",), cls=c, kind="dtor"))
         funcs.append(Func("ident", [], ("native", "int"), cls=c, const=True))
         for j in range(r.randrange(1, 5)):
-            ps = [gen_param(r, spec, i, allow_struct=False) for i in range(r.randrange(0, 4))]
+            ps = [gen_param(r, spec, i, allow_struct=True) for i in range(r.randrange(0, 4))]
             static = r.random() < 0.25
-            funcs.append(Func("m%d" % j, ps, gen_ret(r, spec, allow_struct=False), cls=c, const=(not static and r.random() < 0.4), static=static))
+            funcs.append(Func("m%d" % j, ps, gen_ret(r, spec, allow_struct=True), cls=c, const=(not static and r.random() < 0.4), static=static))
     spec.classes = allcls
     nfree = r.randrange(2, 7) if nfree is None else nfree
     for j in range(nfree):
@@ -463,19 +508,38 @@ def gen_spec(r, name, rich=True, nfree=None):
     if r.random() < 0.4:
         spec.ns = "ns1"
         for j in range(r.randrange(1, 3)):
-            ps = [gen_param(r, spec, i, allow_class=False, allow_struct=False) for i in range(r.randrange(0, 3))]
-            ret = gen_ret(r, spec, allow_struct=False)
+            ps = [gen_param(r, spec, i, allow_class=False, allow_struct=True) for i in range(r.randrange(0, 3))]
+            ret = gen_ret(r, spec, allow_struct=True)
             if ret[0].startswith("class"):
                 ret = ("void",)
             funcs.append(Func("nf%d" % j, ps, ret, ns=spec.ns))
+    if r.random() < 0.5:
+        insts = r.sample(TTYPES, r.randrange(2, 4))
+        spec.tclass = ("Box", insts)
+        T = lambda n, mode="val", const=False: Param("native", "T", mode, "in", n, const=const)
+        tf = [Func("ctor", [Param("native", "int", "val", "in", "a0"), T("a1")], ("void",), cls="Box", kind="ctor"),
+              Func("dtor", [], ("void",), cls="Box", kind="dtor"),
+              Func("ident", [], ("native", "int"), cls="Box", const=True),
+              Func("get", [], ("tparam", "T"), cls="Box", const=True),
+              Func("set", [T("a0"), Param("native", "int", "val", "in", "a1")], ("void",), cls="Box")]
+        if r.random() < 0.5:
+            tf.append(Func("mix", [T("a0", "ref", True), Param("native", "double", "val", "in", "a1"), T("a2")], ("native", "double"),
+                           cls="Box", const=r.random() < 0.5))
+        tf[0].main = True
+        spec.tfuncs = tf
+        funcs_all = funcs + tf
+    else:
+        funcs_all = funcs
     # stable ids and constants
-    for i, f in enumerate(funcs):
+    for i, f in enumerate(funcs_all):
         f.fid = i
         for p in f.params:
             if p.fam == "native" and p.t not in ("T", "U", "V"):
                 f.consts[p.name] = r.choice(DBL if p.t == "double" else INT_T[p.t])
             elif p.fam == "bool":
                 f.consts[p.name] = r.random() < 0.5
+            elif p.fam == "enum":
+                f.consts[p.name] = r.choice(ENUM)
             elif p.fam == "string":
                 f.consts[p.name] = r.choice(["", "out", "new value", "zz top"])
             elif p.fam == "struct":
@@ -521,6 +585,10 @@ def fixed_spec(name="ogf"):
         Func("m3", [], ("classptr", "K0"), cls="K0"),
         Func("m4", [], ("classval", "K0"), cls="K0", const=True),
         Func("m5", [Param("enum", "Color", "val", "in", "a0")], ("enum",), cls="K0"),
+        Func("m6", [Param("struct", "Pt", "val", "in", "a0"), Param("struct", "Pt", "ptr", "inout", "a1")], ("struct",), cls="K0"),
+        Func("m7", [Param("enum", "Color", "ptr", "inout", "a0"), Param("enum", "Color", "ref", "out", "a1"),
+                    Param("enum", "Color", "ptr", "in", "a2", const=True), Param("enum", "Color", "ref", "in", "a3", const=True)],
+             ("void",), cls="K0"),
         Func("sw0", [N("int", "a0"), N("int", "a1"), N("double", "a2"), N("double", "a3")], ("native", "int")),
         Func("sw1", [S("a0"), S("a1"), S("a2", "ptr", "inout"), S("a3", "ref", "out")], ("stringref",)),
         Func("sw2", [N("double", "a0", "ptr", "out"), N("double", "a1", "ptr", "inout"), N("int", "a2", "ref", "inout"),
@@ -559,6 +627,8 @@ def fixed_spec(name="ogf"):
                 f.consts[p.name] = r.choice(DBL if p.t == "double" else INT_T[p.t])
             elif p.fam == "bool":
                 f.consts[p.name] = r.random() < 0.5
+            elif p.fam == "enum":
+                f.consts[p.name] = r.choice(ENUM)
             elif p.fam == "string":
                 f.consts[p.name] = r.choice(["out", "new value", "zz top"])
             elif p.fam == "struct":
